@@ -287,8 +287,10 @@ theorem parseFormatPre_good (cfg : Cfg) (s : St) (src : Src) :
   simp only []
   split
   · split
-    · exact Or.inl (by simp)
     · exact good_err _ _ _ _
+    · split
+      · exact Or.inl (by simp)
+      · exact good_err _ _ _ _
   · rename_i c s1 src1 h
     have he := nextvis_eq_elems h
     split
@@ -397,7 +399,9 @@ theorem parseFormatEnc_good (cfg : Cfg) (prev : Nat) (s : St) (src : Src) :
   · split
     · exact encSection_good _ _ _
     · split
-      · exact Or.inl (by simp)
+      · split
+        · exact good_err _ _ _ _
+        · exact Or.inl (by simp)
       · rename_i c s1 src1 h
         have he := nextvis_eq_elems h
         split
